@@ -31,7 +31,12 @@ pub fn run(case: &Value, ctx: &Ctx) -> Outcome {
     let mut groups: Vec<Vec<String>> = Vec::new();
     if !marg.is_empty() {
         if id % 2 == 0 {
-            groups.push(vec!["-m".into(), marg.iter().map(|a| a.to_string()).collect::<Vec<_>>().join(",")]);
+            // the order in which axes are named must not matter: descending for some scenarios
+            let mut named = marg.clone();
+            if id % 4 == 0 {
+                named.reverse();
+            }
+            groups.push(vec!["-m".into(), named.iter().map(|a| a.to_string()).collect::<Vec<_>>().join(",")]);
         } else {
             let keep: Vec<String> = (0..shape.len()).filter(|a| !marg.contains(a)).map(|a| a.to_string()).collect();
             groups.push(vec!["--marginalize-keep".into(), keep.join(",")]);
